@@ -606,6 +606,8 @@ pub fn check_rpc(case: &RpcCase, st: &mut Stats) -> Result<(), String> {
 }
 
 pub fn main(env: &Env) -> i32 {
+    // a process death (abort inside a scope task, stack overflow, ...) while a case runs is a violation of C10 with that case as the replay
+    common::crashdump::arm(&env.property);
     if let Mode::Replay(path) = env.mode() {
         let (part, case) = Env::read_replay(&path);
         let r = match part.as_str() {
